@@ -20,9 +20,9 @@ theorem C02_acyclic_sorts (av : List Name) (els : List Dep)
     ∃ o, sortDeps av els = .ok o ∧ o.Perm (els.map (·.name)) ∧ Sched els av o := by
   have hchk : checkSortable av els = .ok () := (checkSortable_ok_iff av els).mpr (sortable_complete hs)
   have hinv := qinv_sortInv hs
-  obtain ⟨o, ho⟩ := sortLoop_ok hinv els (els.length * els.length) av els none [] els []
+  obtain ⟨o, ho⟩ := sortLoop_ok hinv els (Generated.C02.maxIterations els.length) av els none [] els []
     ⟨fun d hd => hd, hnd, fun a ha => ha, fun d hd hnd' => absurd hd hnd'⟩ (by simp) (by simp)
-    (by intro x hx; cases hx) (by simpa using tri_le_sq els.length)
+    (by intro x hx; cases hx) (by simpa using tri_le_cap els.length)
   obtain ⟨tail, hot, hsched, hperm⟩ := sortLoop_sound els _ av els none [] o (fun d hd => hd) ho
   refine ⟨o, ?_, ?_, ?_⟩
   · simp [sortDeps, hchk, ho, bind, Except.bind]
